@@ -568,6 +568,12 @@ func (e *Engine) execSafe(st *State, f *Frame, in ssa.Instruction) {
 	defer func() {
 		if r := recover(); r != nil {
 			if gp, ok := r.(goPanic); ok {
+				if os.Getenv("STACK") != "" {
+					fmt.Fprintln(os.Stderr, "GOPANIC", gp.msg, "at instr", in)
+					for _, fr := range st.frames {
+						fmt.Fprintln(os.Stderr, "   at", fr.fn)
+					}
+				}
 				e.startPanic(st, gp.msg)
 				return
 			}
